@@ -74,5 +74,5 @@ Theorem C14_refuted_case_collision :
 Proof. exists collide. vm_compute. split; reflexivity. Qed.
 Print Assumptions C14_refuted_case_collision.
 
-Example C14_supported_nonempty : List.length (supported_units 0) = 562.
+Example C14_supported_nonempty : List.length (supported_units 0) = 563.
 Proof. vm_compute. reflexivity. Qed.
